@@ -74,11 +74,14 @@ def sizes(lo, hi):
 
 @st.composite
 def table(draw, hdr, cols, max_rows=6, min_rows=0, ragged=False, id_col=None, extra=scalar,
-          ragged_odds=4, ragged_min=0):
+          ragged_odds=None, ragged_min=0):
     """hdr: list of field names; cols: one cell strategy per field (id_col index gets the row
-    number).  ragged: about one row in `ragged_odds` gets a length in 0..n+1."""
+    number).  ragged: about one row in `ragged_odds` gets a length in 0..n+1 (default: usually one
+    in four, sometimes every second or every row - so that some tables have no full-length row)."""
     n = len(hdr)
     nrows = draw(sizes(min_rows, max_rows))
+    if ragged and ragged_odds is None:
+        ragged_odds = draw(st.sampled_from([4, 4, 4, 2, 1]))
     rows = []
     for i in range(nrows):
         row = [i if j == id_col else draw(cols[j]) for j in range(n)]
@@ -112,8 +115,13 @@ TWINS = {0: [0.0, False, Decimal("0")], 1: [1.0, True, Decimal("1")], 2: [2.0, D
          3: [3.0, Decimal("3")], 10: [10.0, Decimal("10")]}
 
 
+SEQ_TWINS = [([1, 2], (1, 2)), ([], ()), ([None], (None,)), (["a", 1], ("a", 1)), ([[1]], ((1,),)), ([1, [2, 3]], (1, (2, 3)))]
+# same prefix, then values that only the ordering (not native comparison) can tell apart
+SEQ_NEAR = [((1, b"a"), (1, "a")), ((1, None), (1, 0)), (("a", b""), ("a", "")), ((None, 1), (None, "1")), ((1, (2,)), (1, 2))]
+
+
 @st.composite
-def twinned_pool(draw, elements=keyish, min_size=2, max_size=5):
+def twinned_pool(draw, elements=keyish, min_size=2, max_size=5, seq_twins=False):
     """A small pool that, half of the time, is made to contain values that are == but of different type (1, 1.0, True,
     Decimal(1)) - by construction, not by luck: equal keys of different type are where grouping, joining and dedup logic
     that compares with anything but == goes wrong."""
@@ -124,4 +132,9 @@ def twinned_pool(draw, elements=keyish, min_size=2, max_size=5):
         p.append(draw(st.sampled_from(TWINS[base])))
         if draw(st.booleans()):
             p.append(draw(st.sampled_from(TWINS[base])))
+    if seq_twins and draw(st.integers(0, 3)) == 0:
+        # the same sequence once as a list and once as a tuple (they tie under the ordering), and / or two sequences that
+        # differ only behind a common prefix, in a position where native comparison gives up
+        a, b = draw(st.sampled_from(SEQ_TWINS + SEQ_NEAR))
+        p.extend([a, b])
     return p
